@@ -3,6 +3,9 @@
 import json, subprocess
 ALL = ["C%02d" % i for i in range(1, 21)]
 CLAIMED = {
+ "C09": dict(level="exploration", technique="non-interference monitor with a per-location reference model: after every operation of generated forest histories the own and inherited views of every location are compared; loop cases under a watchdog in their own child process",
+   text="Histories spread over 3-6 locations with changing parent sets (chains, fans, diamonds) are run through SimpleLocationProvider and sys.System; an operation on one location must change the own view of no other and the inherited view exactly as the transitive-parent union says, events at a parent must not reach children, and looping chains must yield the loop error instead of recursing.",
+   note="Trusts lib/ref per location; rule ids unique across locations; through the System a remove of an absent id is an unacknowledged (failed) operation.", ref="§5 C09"),
  "C07": dict(level="exploration", technique="timed runtime monitor with interval timestamps: every observation of a family of write / reload / observe schedules carries [before, after] and is judged only where the intervals make the verdict certain",
    text="Scenarios over item kind x expiry encoding x state x schedule place reads, reloads and the expiry instant in every order; the reported expiry must be the one fixed at write and never move, items must be visible certainly-before and invisible certainly-after it, purged from storage once observed expired, items without expiry stay, already-expired writes are rejected.",
    note="Whole-second clock: observations straddling the expiry second are accepted either way; sub-second boundary behaviour is out of reach.", ref="§5 C07"),
